@@ -336,8 +336,41 @@ def tv(t, leaf, depth=0):
 def excluded_under(func, b, leaf, blocks=None):
     """True if, under the partial valuation `leaf`, some dominating condition of block b has the wrong outcome: the block
     cannot be reached with these values.  Independent of how the test is written (`> 0`, `!= 0`, `>= 1`, early return)."""
-    for c, side in guard_trees(func, blocks if blocks is not None else set(func.blocks), b):
+    region = blocks if blocks is not None else set(func.blocks)
+    for c, side in list(guard_trees(func, region, b)) + _whole_conditions(func, region, b):
         v = tv(c, leaf)
         if v is not None and bool(v) != side:
             return True
     return False
+
+
+def _whole_conditions(func, blocks, b):
+    """Dominating branch conditions that guard_trees cannot split into atoms (a disjunction taken as true, a conjunction
+    taken as false) as whole trees with the side taken; only the three-valued evaluation can use them."""
+    out = []
+    doms = func.dominators().get(b, set())
+    for d in sorted(doms & blocks, reverse=True):
+        if d == b:
+            continue
+        blk = func.blocks[d]
+        term = blk.get('term')
+        if not term or len(blk['succ']) != 2:
+            continue
+        c = eff_cond(term)
+        if c is None:
+            continue
+        s0, s1 = blk['succ']
+        if term.get('c') in ('ForStmt', 'WhileStmt', 'DoStmt', 'CXXForRangeStmt') and not _reaches(func, b, d):
+            continue
+        in0 = (s0 == b) or (s0 in doms)
+        in1 = (s1 == b) or (s1 in doms)
+        if in0 == in1:
+            continue
+        other = s1 if in0 else s0
+        if other == b or _reaches_avoiding(func, other, b, d):
+            continue
+        if term.get('c') == 'BinaryOperator' and _feeds_vshape(func, d, doms):
+            continue
+        if not implied_atoms(c, in0):
+            out.append((c, in0))
+    return out
